@@ -6,6 +6,7 @@ space as NDJSON, (3) the Go driver (rebuilt from /repo's working tree with
 (4) TLC validates the traces against the trace specification, (5) verdict,
 evidence.  Python holds no oracle: it moves files, runs tools, counts.
 """
+import uuid
 import json, os, random, re, shutil, subprocess, sys, tempfile, time, atexit, hashlib, glob
 from concurrent.futures import ThreadPoolExecutor
 
@@ -54,7 +55,7 @@ class Run:
         """Run TLC on module.tla with config cfg (a file name in the spec dir or config text)."""
         cwd = cwd or self.specdir
         if "\n" in cfg:
-            name = "_%s_%d.cfg" % (module, len(os.listdir(cwd)))
+            name = "_%s_%s.cfg" % (module, uuid.uuid4().hex[:12])     # (unique also when several runs start side by side)
             open(os.path.join(cwd, name), "w").write(cfg)
             cfg = name
         meta = tempfile.mkdtemp(prefix="md-", dir=self.scratch)
